@@ -18,6 +18,11 @@ Definition base_doc (b : Z) : option content :=
   else if b =? 1 then Some (mkC 0 0 false false true true)
   else if b =? 2 then Some (mkC 2 0 true false true false)
   else if b =? 3 then Some (mkC 3 0 true false false false)
+  (* 4 / 5 an order, 6 / 7 a delivery, with and without the code *)
+  else if b =? 4 then Some (mkC 4 0 true false true true)
+  else if b =? 5 then Some (mkC 4 0 false false true true)
+  else if b =? 6 then Some (mkC 6 0 true false true true)
+  else if b =? 7 then Some (mkC 6 0 false false true true)
   else None.
 
 Definition dec_fx (z : Z) : fixes :=
